@@ -48,7 +48,18 @@ var errUser = errors.New("user script error")
 // exec runs the script on enc. With ignore, errors of write calls are
 // swallowed and the script goes on (adversarial); otherwise it returns the
 // first error like ordinary user code.
+// execDepth bounds the recursion of scripts that re-enter themselves through a
+// nested MarshalEncode (e.g. a function for strings whose nested call marshals a
+// map with a string key): unbounded user recursion is the script's own doing and
+// only makes cases quadratically slow.
+var execDepth int
+
 func exec(enc *jsontext.Encoder, ops []Op, ignore bool) error {
+	if execDepth >= 40 {
+		return errUser
+	}
+	execDepth++
+	defer func() { execDepth-- }()
 	for _, o := range ops {
 		var err error
 		switch o.K {
